@@ -38,7 +38,7 @@ EXPLANATION = (
     "(R4) in every generator function that emits `HeadEntity(H)`, each emitted `[R->]AppendMultInstance( new T( A, .. ) )` "
     "has R = A = H: parts created for second and later supertypes are chained to, and register their attributes with, the "
     "head of the instance (necessary for a fresh instance to expose the attributes inherited through them). "
-    "Not decided: names, types, order of enumeration items and select members, inherited attribute order, accessors — the "
+    "(R5) the buffer printed as the argument of an emitted `<descriptor>->ReferentType( %s )` has been overwritten, on every path, since it held the descriptor's own name (fills-iff-non-zero summary of the naming helper, edge-sensitive walk): no descriptor names itself as its element type. Not decided: names, types, order of enumeration items and select members, inherited attribute order, accessors — the "
     "values the generator computes for an arbitrary schema.")
 
 PRED_PARAM = {"optional": "VARget_optional", "unique": "VARget_unique", "abstractEntity": "ENTITYget_abstract", "extMapping": "externMap"}
